@@ -178,7 +178,7 @@ func cmdCheck(args []string) int {
 	}
 	exit := 0
 	var all []*Obligation
-	var fnNames []string
+	fnNames := []string{}
 	trusted := map[string]bool{}
 	var notes []string
 	units := map[string]bool{}
@@ -260,8 +260,8 @@ func cmdCheck(args []string) int {
 	backends := map[string]int{}
 	var solverS float64
 	discharged, claimed, vacuityOK, vacuityN := 0, 0, 0, 0
-	var samples []map[string]interface{}
-	var unclaimed []string
+	samples := []map[string]interface{}{}
+	unclaimed := []string{}
 	var violations []OblResult
 	var knownHits []string
 	seen := map[string]bool{}
@@ -349,7 +349,7 @@ func cmdCheck(args []string) int {
 			}
 		}
 	}
-	var gone []string
+	gone := []string{}
 	for n := range base.Claimed {
 		if !seen[n] {
 			fn := n[:strings.Index(n, "#")]
@@ -410,13 +410,13 @@ func cmdCheck(args []string) int {
 	}
 	wall := time.Since(t0).Seconds()
 	if !*noEvidence {
-		var tb []string
+		tb := []string{}
 		for t := range trusted {
 			tb = append(tb, t)
 		}
 		sort.Strings(tb)
 		sort.Strings(fnNames)
-		var us []string
+		us := []string{}
 		for u := range units {
 			us = append(us, u)
 		}
